@@ -566,6 +566,19 @@ func restoreIdentProgram(f *ast.File) string {
 	return "[DUnknown \"missing\"]"
 }
 
+func forkDecisionOf(f *ast.File, recv, name, where string) string {
+	for _, d := range f.Decls {
+		fd, ok := d.(*ast.FuncDecl)
+		if !ok || fd.Body == nil || fd.Name.Name != name || fd.Recv == nil || !strings.Contains(src(fd.Recv.List[0].Type), recv) {
+			continue
+		}
+		env := &symEnv{val: map[string]string{}, pred: map[string]string{}, fork: true}
+		return "[" + strings.Join(env.stmts(fd.Body.List, where), ";\n   ") + "]"
+	}
+	noteUnknown(where, "function not found")
+	return "[DUnknown \"missing\"]"
+}
+
 func tupleDecisionOf(f *ast.File, recv, name, where string) string {
 	for _, d := range f.Decls {
 		fd, ok := d.(*ast.FuncDecl)
@@ -606,6 +619,10 @@ func genDecisionSrc() {
 	// the selector itself is one outcome (its statements are pinned)
 	fmt.Fprintf(&b, "Definition restoreident_src : list dstmt :=\n  %s.\n\n", restoreIdentProgram(rf))
 	// Decorator.ParseFile: which error is reported when the parser and the decorator both fail
-	fmt.Fprintf(&b, "Definition parsefile_src : list dstmt :=\n  %s.\n", tupleDecisionOf(df, "Decorator", "ParseFile", "decorator.go Decorator.ParseFile"))
+	fmt.Fprintf(&b, "Definition parsefile_src : list dstmt :=\n  %s.\n\n", tupleDecisionOf(df, "Decorator", "ParseFile", "decorator.go Decorator.ParseFile"))
+	// gobuild.RestorerResolver.ResolvePackage: hints first, then the finder (default: (*build.Context).Import)
+	// with the context (default: &build.Default) -- the defaults are conditional assignments, rendered by forking
+	gb := parseNoComments(filepath.Join(*repo, "decorator/resolver/gobuild/resolver.go"))
+	fmt.Fprintf(&b, "Definition gobuild_resolvepackage_src : list dstmt :=\n  %s.\n", forkDecisionOf(gb, "RestorerResolver", "ResolvePackage", "gobuild.ResolvePackage program"))
 	writeIfChanged("DecisionSrc.v", b.String())
 }
